@@ -216,6 +216,73 @@ def _opt_map(I, a, d):
     return SOME(I.call_value(a[1], [o.fields[0]]))
 
 
+@T.path("std::option::Option::map_or", "core::option::Option::map_or")
+def _opt_map_or(I, a, d):
+    o = _opt(a[0])
+    if o.vname == "None":
+        return a[1]
+    I.drop_value(a[1])
+    return I.call_value(a[2], [o.fields[0]])
+
+
+@T.path("std::option::Option::map_or_else", "core::option::Option::map_or_else")
+def _opt_map_or_else(I, a, d):
+    o = _opt(a[0])
+    if o.vname == "None":
+        return I.call_value(a[1], [])
+    return I.call_value(a[2], [o.fields[0]])
+
+
+def _int_ty_of(d):
+    m = re.search(r"<impl (\w+)>", d.get("raw", ""))
+    if m:
+        return m.group(1)
+    ty = d["segs"][-2] if len(d.get("segs", ())) >= 2 else "usize"
+    return ty if ty in ("usize", "u64", "u32", "u128", "u8", "u16", "i64", "i32", "isize") else "usize"
+
+
+def _checked(op):
+    def f(I, a, d):
+        ty = _int_ty_of(d)
+        r = I.binop(op + "WithOverflow", a[0], a[1], ty)
+        val, ovf = r.fields
+        if I.w.branch(ovf, "checked-" + op):
+            return NONE()
+        return SOME(val)
+    return f
+
+
+for _op, _nm in (("Add", "checked_add"), ("Sub", "checked_sub"), ("Mul", "checked_mul")):
+    T.path("core::num::%s" % _nm)(_checked(_op))
+
+
+def _saturating(op):
+    def f(I, a, d):
+        ty = _int_ty_of(d)
+        from ..parse import INT_WIDTH
+        r = I.binop(op + "WithOverflow", a[0], a[1], ty)
+        val, ovf = r.fields
+        if I.w.branch(ovf, "saturating-" + op):
+            return mask(INT_WIDTH[ty]) if op == "Add" else 0
+        return val
+    return f
+
+
+T.path("core::num::saturating_add")(_saturating("Add"))
+T.path("core::num::saturating_sub")(_saturating("Sub"))
+
+
+def _wrapping(op):
+    def f(I, a, d):
+        ty = _int_ty_of(d)
+        return I.binop(op, a[0], a[1], ty)
+    return f
+
+
+T.path("core::num::wrapping_add")(_wrapping("Add"))
+T.path("core::num::wrapping_sub")(_wrapping("Sub"))
+
+
 @T.path("std::option::Option::and_then", "core::option::Option::and_then")
 def _opt_and_then(I, a, d):
     o = _opt(a[0])
